@@ -7,7 +7,7 @@ Line-protocol handler for the application-session product machine (`Model/AppSes
   app.run (acfg (dec <d0> (n d)*) <hasMsgCb> (msgbeh <b0> (v b)*) <hasCb> <cbBeh> <closedFirst>) <event>*
 
   d   ::= id | skip | fail | (val v)            `id` = `val n` (default only)
-  b   ::= ret | (await k) | close | raise | (awaitcc k)
+  b   ::= ret | (await k) | close | raise | (awaitcc k) | (awaitclose k)
   event ::= any `sess.run` event (connect, (data ..), eof, iclose, logout, send, (run R|D|L|M|C|V|U<i>), (close u), (recv u),
             (recvnw u), (login u), (cancel u))  |  (run D2|V2|W<i>)  |  (aclose u)  |  (arecv u)  |  (acancel u)
 
@@ -35,6 +35,7 @@ def abehOf : Sexp → Option ABeh
   | .atom "raise" => some .raise
   | .list [.atom "await", k] => do some (.await (← asNat k))
   | .list [.atom "awaitcc", k] => do some (.awaitCC (← asNat k))
+  | .list [.atom "awaitclose", k] => do some (.awaitClose (← asNat k))
   | _ => none
 
 def acfgOf : Sexp → Option ACfg
